@@ -2,7 +2,7 @@
    YAML text the implementation loads. *)
 From Coq Require Import String NArith ZArith List Bool.
 From GF Require Import Base.Res Base.Bytes Base.Layout Base.Gen Model.Msg Model.Packet Model.ProdNF Model.Cfg Model.Pipe
-     Model.Pb Spec.GenPipe Drivers.D06 Drivers.D10 Drivers.D13.
+     Model.Pb Model.Format Spec.GenPipe Drivers.D06 Drivers.D10 Drivers.D13.
 Import ListNotations.
 Local Open Scope string_scope.
 Open Scope N_scope.
@@ -56,11 +56,56 @@ Fixpoint cfg_run (k : pipekind) (cfg : prodcfg) (st : pstate) (h : list (exporte
       List.app (show_step_v s) (TS "|" :: cfg_run k cfg (step_state st s) r)
   end.
 
+(* fmt (field name | rename name new | render name id)* cfg ... : the formatter section *)
+Fixpoint parse_fmt (fuel : nat) (l : list tok) (f : afmt) : afmt * list tok :=
+  match fuel with
+  | O => (f, l)
+  | S fu =>
+      match l with
+      | TS "field" :: TS n :: r =>
+          parse_fmt fu r {| fFields := fFields f ++ [n]; fRename := fRename f; fRender := fRender f |}
+      | TS "rename" :: TS a :: TS b :: r =>
+          parse_fmt fu r {| fFields := fFields f; fRename := fRename f ++ [(a, b)]; fRender := fRender f |}
+      | TS "render" :: TS a :: TS b :: r =>
+          parse_fmt fu r {| fFields := fFields f; fRename := fRename f; fRender := fRender f ++ [(a, b)] |}
+      | TS "cfg" :: r => (f, r)
+      | _ => (f, l)
+      end
+  end.
+
+Definition opt_tok (o : option bytes) : tok := match o with Some b => TB b | None => TS "oom" end.
+
+(* the same with the JSON and text BYTES of every message under the formatter configuration (Model/Format.v) *)
+Definition show_step_f (fc : fmtc) (r : res stepres) : list tok :=
+  match r with
+  | Ok (_, o, ms) =>
+      show_outcome o :: TN (lenN ms) ::
+        flat_map (fun m => List.app (show_msg m)
+                    [TS "j"; opt_tok (format_json fc m); TS "t"; opt_tok (format_text fc m);
+                     TS "jsonok"; TS "keysok"; TS "agree"; TS "keyok"]) ms
+  | Err e => [err_tok e] | Panic => [TS "panic"] | OutOfFuel => [TS "fuel"]
+  end.
+
+Fixpoint fcfg_run (fc : fmtc) (k : pipekind) (cfg : prodcfg) (st : pstate) (h : list (exporter * N * bytes)) : list tok :=
+  match h with
+  | [] => []
+  | (e, tr, d) :: r =>
+      let s := pipe_step k cfg st e tr d in
+      List.app (show_step_f fc s) (TS "|" :: fcfg_run fc k cfg (step_state st s) r)
+  end.
+
 Definition c14_run (inp : list tok) : list tok :=
   match inp with
   | TS "getbytes" :: TB d :: TN off :: TN len :: TN sh :: _ =>
       match get_bytes d (Z.of_N off - 1000) (Z.of_N len - 1000) (tb sh) with
       | Ok b => [TB b] | Panic => [TS "panic"] | _ => [TS "err"]
+      end
+  | TS _ :: TS k :: TS _ :: TS "fmt" :: r0 =>
+      let '(f, r) := parse_fmt (length r0) r0 empty_afmt in
+      let '(a, rest) := parse_cfg (length r) r empty_acfg in
+      match compile a, compile_fmt f (aCustoms a) with
+      | Some cfg, Some fc => fcfg_run fc (kind_of k) cfg init_pstate (toks_hist rest)
+      | _, _ => [TS "cfgerr"]
       end
   | TS _ :: TS k :: TS _ :: TS "cfg" :: r =>
       let '(a, rest) := parse_cfg (length r) r empty_acfg in
